@@ -274,3 +274,17 @@ def rebase_note_lines_beyond_file(trace, viol):
         return False
     av = _step_argv(trace, viol)
     return av[:1] in (["rebase"], ["cherry-pick"]) and "--abort" not in av
+
+
+@predicate("hooks_stash_apply")
+def hooks_stash_apply(trace, viol):
+    """git stash apply (which moves no ref) is invisible to the managed hooks"""
+    if viol.get("monitor") not in ("pair.notes", "pair.blame"):
+        return False
+    ap = _index_of(trace, lambda o: _is_git(o, "stash", "apply"))
+    push = _index_of(trace, lambda o: _is_git(o, "stash", "push"))
+    ops = _ops(trace)
+    human_before_push = push is not None and push > 0 and ops[push - 1].get("op") == "edit" and ops[push - 1].get("who") == "human"
+    st = viol.get("step")
+    return (trace.get("variant") or {}).get("world", {}).get("mode") == "hooks" and (ap is not None or human_before_push) \
+        and isinstance(st, int) and st > (ap if ap is not None else push)
